@@ -13,7 +13,10 @@ The front ends (second half of the file) are modelled from the caller's argument
 `optimalPartition`: the call protocol of the user's cost function (`CostFn`: three / four parameters, default value, not
 callable; `glob_param is None` selects the three-argument call, EVERY other value is passed), the loops that fill the
 matrix (in place, loop form, with `findStopsGlobal`'s `break`), `C + C.T`, degenerate track sizes and the exceptions.
-Geometry (`minCircle`, distances, timestamps, the built-in cost functions of `simplify`) enters as parameters.
+`findStopsGlobal` is modelled from ITS arguments (`findStopsGlobalPy`, last section): the track it works on (`downsampling > 1`:
+the resampled copy), the planimetric `distance2DTo` and the elapsed time read from the observations `(x, y, z, t)`, the three
+tests, the final filter and the identifiers of the stops. `minCircle`, the temporal resampling `track ** n`, the geometry of
+`findStopsGlobalForRTK` and the built-in cost functions of `simplify` enter as parameters.
 
 `better a b` is the strict test of the selected direction (`a < b` to minimise, `a > b` to maximise).
 Core Lean only; polymorphic in the scalar (`Rat`/`Int` and `Float` in the driver, an ordered monoid in the proofs). -/
@@ -347,6 +350,19 @@ def stopKeepTrack (zero : α) (tr : Nat → Fix α) (circA : Nat → Nat → Opt
   match circA a e with
   | none => false
   | some c => !(decide (diameter < zero) || decide (diameter * diameter < c)) && !decide ((tr e).t - (tr a).t < duration)
+
+/-- run-time certificate for the circles handed to the model as `minCircle`'s answers (`circ2 i e` = squared diameter, centre
+`(cx i e, cy i e)`): every observation `p_i … p_e` of every segment `i ≤ e < size` lies in the disc, i.e.
+`4 · |p_k − centre|² ≤ circ2 i e` (planimetric). `Props/C12.lean` (`enclosedB_sound`) turns `true` into the hypothesis of
+`stops_criterion`. -/
+def enclosedB (four : α) (tr : Nat → Fix α) (circ2 : Nat → Nat → Option α) (cx cy : Nat → Nat → α) (size : Nat) : Bool :=
+  (List.range size).all fun i => (List.range size).all fun e =>
+    if i ≤ e then
+      match circ2 i e with
+      | none => true
+      | some c => (List.range (e + 1 - i)).all fun d =>
+          !decide (c < four * (((tr (i + d)).x - cx i e) * ((tr (i + d)).x - cx i e) + ((tr (i + d)).y - cy i e) * ((tr (i + d)).y - cy i e)))
+    else true
 
 /-- `if downsampling > 1: track = track.copy(); track **= track.size() / downsampling` (`**=` builds the temporal resampling
 on that number of points: `resampled`, a parameter); every other value of `downsampling` leaves the track as it is -/
